@@ -65,6 +65,36 @@ Fixpoint es_quiet (p : params) (s : sstate) (vals : list Z) : bool :=
   | v :: t => let s' := snd (s_step p s v) in negb (es_fired p s') && es_quiet p s' t
   end.
 
+(* ... in any epoch before the last one of [vals] (the epoch at which it fires is included) *)
+Fixpoint quiet_before_last (p : params) (s : sstate) (vals : list Z) : bool :=
+  match vals with
+  | [] => true
+  | v :: t => match t with
+              | [] => true
+              | _ => negb (es_fired p (snd (s_step p s v))) && quiet_before_last p (snd (s_step p s v)) t
+              end
+  end.
+
+(* what the rules make observable after an epoch: update_for_epoch's return value,
+   continue_training(), the optimizer's rate, the recorded rate *)
+Definition rule_obs (x : bool * Q) : option (bool * bool * Q * option Q) :=
+  Some (fst x, fst x, snd x, Some (snd x)).
+Definition obs_core (o : obs) : option (bool * bool * Q * option Q) :=
+  match o with OOk c ct o info => Some (c, ct, o, r_lr info) | OErr _ => None end.
+
+(* keyword arguments update_for_epoch accepts; steps of an uninterrupted, error-free run *)
+Definition kw_ok (decl : list (nat * ukind)) (kw : list (nat * uval)) : Prop :=
+  check_kwargs decl kw = None /\ exists u, collect decl kw = Some u.
+Definition plain (decl : list (nat * ukind)) (steps : list step_in) : Prop :=
+  Forall (fun s => s_restart s = false /\ kw_ok decl (s_kw s)) steps.
+
+(* the same inputs without any restart *)
+Definition clear_restarts (steps : list step_in) : list step_in :=
+  map (fun s => mkStep false (s_train s) (s_val s) (s_kw s)) steps.
+
+(* state of the rules after a sequence of validation metrics *)
+Definition s_after (p : params) (dflt : Q) (vals : list Z) : sstate := snd (s_run p (s_init p dflt) vals).
+
 (* well-formed parameters (what TrainingStateParams' bounds enforce) *)
 Definition wf (p : params) : Prop :=
   0 <= es_thr p /\ 1 <= es_pat p /\ 0 <= es_burn p /\
